@@ -3611,6 +3611,8 @@ FROM (
 
         select_parts = [quote_name(c) for c in (*other_ids, *cond_mapping.values())]
         select_parts.append(f"{computed_expr} AS _computed")
+        # Marks "this rule produced a row for the group" in the LEFT JOIN of the pivot update.
+        select_parts.append("1 AS _present")
 
         where_parts = self._build_hr_mode_filter(
             mode=mode,
@@ -3647,22 +3649,22 @@ FROM (
                 other_val_has.append(f"p.{_has_col(i)}")
 
         key_cols = [f"p.{k}" for k in join_keys]
-        first_key = join_keys[0] if join_keys else "_computed"
 
         if input_mode == "rule_priority":
             guard = "r._computed IS NOT NULL"
         else:
-            guard = f"r.{first_key} IS NOT NULL"
+            guard = "r._present IS NOT NULL"
         val_expr = f"CASE WHEN {guard} THEN r._computed ELSE p.{val_col} END AS {val_col}"
-        has_expr = f"CASE WHEN r.{first_key} IS NOT NULL THEN 1 ELSE p.{has_col} END AS {has_col}"
+        has_expr = f"CASE WHEN r._present IS NOT NULL THEN 1 ELSE p.{has_col} END AS {has_col}"
 
         all_select = key_cols + other_val_has + [val_expr, has_expr]
-        using_clause = ", ".join(join_keys) if join_keys else "1=1"
+        # Without other identifiers the pivot has a single group: join it unconditionally.
+        join_clause = f"USING ({', '.join(join_keys)})" if join_keys else "ON TRUE"
 
         return (
             f"  SELECT {', '.join(all_select)}\n"
             f"  FROM {prev_pivot} p\n"
-            f"  LEFT JOIN {rule_cte} r USING ({using_clause})"
+            f"  LEFT JOIN {rule_cte} r {join_clause}"
         )
 
     def _build_hr_mode_filter(
